@@ -10,6 +10,7 @@ directories are a matter of path arithmetic, exercised by the correspondence run
 -/
 import Hpv.StoreProofs
 import Hpv.TagsProofs
+import Hpv.StoreTraceProofs
 
 namespace Hpv.Props.C07
 open Hpv.Store
@@ -112,5 +113,35 @@ example : (run (World.init exRemote (fun _ => [1, 3, 2])) exHistory).pcs 0 = .fa
     (run (World.init exRemote (fun _ => [1, 3, 2])) exHistory).files (.tmp .hpo 1) = some [] ∧
     (run (run (World.init exRemote (fun _ => [1, 3, 2])) exHistory) (healthyLoad 2 .hpo (some 3))).pcs 2 = .loaded ⟨.hpo, 3⟩ [1, 2, 3, 4] := by
   decide
+
+/-! ### The same clause for ANY loader program (Hpv/StoreTrace.lean)
+
+No assumption on the order or number of the loader's steps: a run of any number of loaders and clearers is a list of
+file-system primitives, and the hypothesis is the discipline the check evaluates on the OBSERVED trace of the working tree
+(`Disciplined`: no cache location is created or written in place; a rename onto a cache location moves a file that holds
+exactly the remote's bytes for that key). -/
+
+/-- After any prefix of a disciplined trace - a kill at any point - and a torn last write, every file at a cache location is
+a complete copy of what the remote serves. -/
+theorem any_program_no_incomplete_file (remote : Nat → Option Hpv.StoreTrace.Bytes) (ops : List Hpv.StoreTrace.Op)
+    (hd : Hpv.StoreTrace.Disciplined remote Hpv.StoreTrace.emptyFS ops = true) (n : Nat) (p : Nat) (torn : Hpv.StoreTrace.Bytes) :
+    Hpv.StoreTrace.Inv remote (Hpv.StoreTrace.run Hpv.StoreTrace.emptyFS (ops.take n)) ∧
+    Hpv.StoreTrace.Inv remote (Hpv.StoreTrace.step (Hpv.StoreTrace.run Hpv.StoreTrace.emptyFS (ops.take n)) (.append (.other p) torn)) :=
+  Hpv.StoreTrace.inv_crash remote _ ops (Hpv.StoreTrace.inv_empty remote) hd n p torn
+
+/-- The discipline is decided by the scan the driver runs (`firstBad`). -/
+theorem discipline_decided (remote : Nat → Option Hpv.StoreTrace.Bytes) (ops : List Hpv.StoreTrace.Op) :
+    Hpv.StoreTrace.firstBad remote Hpv.StoreTrace.emptyFS ops 0 = none ↔
+      Hpv.StoreTrace.Disciplined remote Hpv.StoreTrace.emptyFS ops = true :=
+  Hpv.StoreTrace.firstBad_none remote _ ops 0
+
+-- a loader that reads before it creates its temp file, writes in two pieces and renames: disciplined; writing the cache
+-- location in place, or renaming a half-written file onto it: not
+example : Hpv.StoreTrace.Disciplined (fun k => if k = 0 then some [1, 2, 3] else none) Hpv.StoreTrace.emptyFS
+    [.noop, .noop, .create (.other 7), .append (.other 7) [1, 2], .append (.other 7) [3], .rename (.other 7) (.cache 0), .noop] = true := by decide
+example : Hpv.StoreTrace.firstBad (fun k => if k = 0 then some [1, 2, 3] else none) Hpv.StoreTrace.emptyFS
+    [.create (.other 7), .append (.other 7) [1, 2], .rename (.other 7) (.cache 0)] 0 = some 2 := by decide
+example : Hpv.StoreTrace.firstBad (fun k => if k = 0 then some [1, 2, 3] else none) Hpv.StoreTrace.emptyFS
+    [.noop, .create (.cache 0)] 0 = some 1 := by decide
 
 end Hpv.Props.C07
